@@ -35,11 +35,13 @@ def build_gateway(in_levels, out_levels, raising=False, persistence_file=None, f
     # what broker clients raise: with a message, without any argument, with several, not a RuntimeError at all
     excs = [lambda: RuntimeError("callback raises"), TimeoutError, lambda: ConnectionError(104, "reset"), lambda: KeyError("mid"),
             lambda: ValueError()]
-    ctl = {"n": 0, "failing": raising == "start"}
+    build_gateway.count = getattr(build_gateway, "count", 0) + 1
+    ctl = {"n": 0, "failing": raising == "start", "kind": build_gateway.count}
 
     def boom():
+        # one kind of exception per gateway (a broker client fails the same way every time), the kinds in turn over gateways
         ctl["n"] += 1
-        raise excs[ctl["n"] % len(excs)]()
+        raise excs[ctl["kind"] % len(excs)]()
 
     def pub(topic, payload, qos, retain):
         pubs.append((topic, payload, qos, retain))
